@@ -217,6 +217,11 @@ func TestC04(t *testing.T) {
 			c.c04Program(s, "rand-reentrant-recursion", src, true, "reentrant-recursion")
 		})
 
+		c.Rapid("higher-order-call-sites", n/2, func(rt *rapid.T, s *Sub) {
+			src := genHigherOrder(rt)
+			c.c04Program(s, "higher-order-call-sites", place(src, drawPlacement(rt)), true, "higher-order")
+		})
+
 		c.Rapid("closures-in-loops", n/2, func(rt *rapid.T, s *Sub) {
 			// closures created in loop iterations, recursive calls and blocks: each captures the loop variable (one per
 			// loop statement), a per-iteration local and an outer counter; they are stored in arrays/objects and called
@@ -334,4 +339,30 @@ func TestC04(t *testing.T) {
 			c.c04Program(s, "closure-histories", place(b.String(), drawPlacement(rt)), interleaved && nInst >= 2, "closure-history")
 		})
 	})
+}
+
+// genHigherOrder: the same call site reaches callees of different arity and kind, one after the other.
+func genHigherOrder(rt *rapid.T) string {
+	P, F, R := bn.KwPrint, bn.KwFun, bn.KwReturn
+	src := F + " a0() { " + R + " \"a0\"; }\n" + F + " a1(p) { " + R + " [\"a1\", p]; }\n" + F + " a2(p, q) { " + R + " [\"a2\", p, q]; }\n" + F + " a3(p, q, r) { " + R + " [\"a3\", p, q, r]; }\n" +
+		F + " ap0(f) { " + R + " f(); }\n" + F + " ap1(f) { " + R + " f(10); }\n" + F + " ap2(f) { " + R + " f(1, 2); }\n" + F + " ap3(f) { " + R + " f(7, 8, 9); }\n" +
+		bn.KwVar + " tbl = [a0, a1, a2, a3];\n" + bn.KwVar + " reg = {f: a1};\n"
+	callees := []string{"a0", "a1", "a2", "a3", bn.BAbs, bn.BMax, bn.BLen, "tbl[1]", "tbl[2]", "reg.f"}
+	k := rapid.IntRange(2, 8).Draw(rt, "calls")
+	for i := 0; i < k; i++ {
+		site := rapid.IntRange(0, 3).Draw(rt, "site")
+		var cal string
+		if rapid.IntRange(0, 3).Draw(rt, "matching") != 0 {
+			// a callee whose arity matches the site (so that the history goes on)
+			opts := [][]string{{"a0"}, {"a1", "tbl[1]", "reg.f", bn.BAbs}, {"a2", "tbl[2]", bn.BMax, bn.BPow}, {"a3", bn.BMax, bn.BMin}}[site]
+			cal = opts[rapid.IntRange(0, len(opts)-1).Draw(rt, "m")]
+		} else {
+			cal = rapid.SampledFrom(callees).Draw(rt, "callee")
+		}
+		src += fmt.Sprintf("%s ap%d(%s);\n", P, site, cal)
+		if rapid.IntRange(0, 5).Draw(rt, "rebind") == 0 {
+			src += "reg.f = " + rapid.SampledFrom([]string{"a1", "a2", "a0"}).Draw(rt, "nf") + ";\n"
+		}
+	}
+	return src
 }
